@@ -1135,7 +1135,10 @@ returnVal.option() ?: return null
                                 )
                             }
                             Type::Slice(_) => {
-                                panic!("Non-primitive slices are not allowed as callback args")
+                                self.errors.push_error(
+                                    "Non-primitive slices are not allowed as callback args".into(),
+                                );
+                                (in_name.clone(), format!("{}: Slice", in_name))
                             }
                             Type::Opaque(_) => (
                                 format!("{}({}, listOf())", in_ty, in_name),
@@ -1623,7 +1626,10 @@ returnVal.option() ?: return null
                         )
                     }
                     Type::Slice(_) => {
-                        panic!("Non-primitive slices are not allowed as callback args")
+                        self.errors.push_error(
+                            "Non-primitive slices are not allowed as callback args".into(),
+                        );
+                        (in_name.clone(), format!("{}: Slice", in_name))
                     }
                     Type::Opaque(_) => (
                         format!("{}({}, listOf())", in_ty, in_name),
